@@ -18,7 +18,7 @@ def run_shard(shard, tier, seed):
     t = shard['type']
     n = genhist.nadd_for(t, tier)
     m = 1 if tier == 'quick' else 2
-    cores = [genhist.core_forward_first(t, 2), genhist.core_additions(t, n), genhist.core_mixed(t, m, ('rm', 'rep', 'fwd', 'set'))]
+    cores = [genhist.core_forward_first(t, 2), genhist.core_additions(t, n), genhist.core_mixed(t, m, ('rm', 'rep', 'repa', 'fwd', 'set'))]
     halos = [('addonly', 80, 12), ('guided', 80, 14), ('mixed', 50, 10), ('removal', 40, 10), ('shortcut', 20, 8)] if tier == 'quick' else [('addonly', 1500, 16), ('guided', 1500, 25), ('mixed', 800, 14), ('removal', 600, 12), ('shortcut', 300, 10)]
     return _histcheck.run(shard, tier, seed, PROPERTY, cores, halos, PROPS, shrink_per_presig=6)
 
